@@ -46,7 +46,11 @@ def run(prop, tier, replay):
         if replay:
             rp = json.load(open(replay))
             path = os.path.join(work, "replay.ndjson")
-            vf.run([bins["rec-search"]] + rp["recorder_args"] + ["-corpus", CORPUS, "-out", path], timeout=1800)
+            if rp["module"] == "PVTrace":
+                hb = vf.build_harness(work, ["rec-heur"])
+                vf.run([hb["rec-heur"]] + rp["recorder_args"] + ["-out", path], timeout=1800)
+            else:
+                vf.run([bins["rec-search"]] + rp["recorder_args"] + ["-corpus", CORPUS, "-out", path], timeout=1800)
             _, mm, _ = tc.validate_trace(work, rp["module"], path, timeout=3000)
             bad = [m for m in mm if m["rule"].startswith((prop + "/", "PANIC/"))]
             for m in bad[:3]:
@@ -73,6 +77,25 @@ def run(prop, tier, replay):
                 def record(path, args=args):
                     vf.run([bins["rec-search"]] + args + ["-corpus", CORPUS, "-out", path], timeout=3000)
                 groups.setdefault(module, []).append(dict(name="%s-%s-%d" % (prop, mode, i), record=record, args=args, module=module))
+        pvm = None
+        if prop == "C07":
+            # the mechanism behind the reported variations: the triangular pv buffer (PV.tla) on the real buffer
+            hb = vf.build_harness(work, ["rec-heur"])
+            pvm = vf.tlc(work, "PV", "INIT Init\nNEXT Next\nCHECK_DEADLOCK FALSE\nINVARIANTS Refines Fits TilingInv\nCONSTANTS MaxPlies = %d\n Moves = {a, b}\n MaxOps = %d\n NoMove = NoMove\n"
+                         % ((4, 7) if tier == "quick" else (5, 8)), timeout=3000, workers=vf.NCPU, heap="4g")
+            vf.tlc_must_pass(pvm, "PV.tla")
+            for i in range(2):
+                k += 1
+                pargs = ["-mode", "pvbuf", "-n", str(6000 if tier == "quick" else 60000), "-seed", str(vf.seed() * 104729 + k)]
+
+                def record_pv(path, pargs=pargs, i=i):
+                    vf.run([hb["rec-heur"]] + pargs + ["-out", path], timeout=3000)
+                    if i == 0:
+                        sp = path + ".scores"
+                        vf.run([hb["rec-heur"], "-mode", "scores", "-out", sp], timeout=600)
+                        with open(path, "a") as f:
+                            f.write(open(sp).read())
+                groups.setdefault("PVTrace", []).append(dict(name="C07-pvbuf-%d" % i, record=record_pv, args=pargs, module="PVTrace"))
         if spsa_bin:
             for i in range(4):
                 k += 1
@@ -121,7 +144,7 @@ def run(prop, tier, replay):
                                           "rejected": {kk: v for kk, v in m.items() if kk not in ("file", "args")}}))
         nsearch = res.counts.get("go", 0) + res.counts.get("gsearch", 0) + res.counts.get("uciGo", 0)
         cov = {
-            "states": dm.distinct + res.states, "transitions": dm.generated + res.transitions,
+            "states": dm.distinct + res.states + (pvm.distinct if pvm else 0), "transitions": dm.generated + res.transitions + (pvm.generated if pvm else 0),
             "traces_validated_against_impl": nsearch,
             "searches_judged": nsearch, "events_judged": res.events, "event_kinds": res.counts,
             "design_model": {"module": "Search.tla (SearchMC)", "distinct_states": dm.distinct,
